@@ -99,11 +99,14 @@ def static_obligations(repo):
     return out
 
 
-def run_cli(repo, d, cpus, perturb, mode, tag):
+def run_cli(repo, d, cpus, perturb, mode, tag, hashseed=None):
     out = os.path.join(d, f"o_{tag}.xmap")
     runner = os.path.join(os.path.dirname(os.path.abspath(__file__)), 'c09_runner.py')
+    env = dict(os.environ)
+    if hashseed is not None:
+        env['PYTHONHASHSEED'] = str(hashseed)          # "on every repetition": interpreters differ in their string hash seed (random by default)
     p = subprocess.run([sys.executable, runner, repo, str(perturb), '-r', os.path.join(d, 'r.cmap'), '-q', os.path.join(d, 'q.cmap'), '-o', out,
-                        '-oM', mode, '-c', str(cpus), '-pb'], capture_output=True, text=True, timeout=900)
+                        '-oM', mode, '-c', str(cpus), '-pb'], capture_output=True, text=True, timeout=900, env=env)
     files = {}
     base, ext = os.path.splitext(out)
     for sfx in ('', '_1', '_2'):
@@ -156,8 +159,54 @@ def tie_set(seed):
     return [(1, length, positions)], [(7, query[-1] + 500, query)]
 
 
+def palindrome_set(seed):
+    """a reference that contains a mirror-symmetric stretch of labels (gaps g1 .. gk, gk .. g1) and a molecule that is a copy of that stretch: its
+    forward and its reverse candidate tie exactly (same seed score, same confidence); which of them is reported may depend on nothing but the fixed
+    order in which the strands are tried"""
+    rnd = random.Random(seed)
+    step = 1400                 # every coordinate on a lattice that both correlation resolutions divide: the mirror image of the bit vector is exact
+    pos, x = [], step * rnd.randint(3, 7)
+    for _ in range(rnd.randint(25, 40)):
+        pos.append(x)
+        x += step * rnd.randint(3, 11)
+    half = [step * rnd.randint(3, 10) for _ in range(rnd.randint(8, 12))]
+    gaps = half + half[::-1]
+    x += step * 20
+    start = x
+    pal = [x]
+    for g in gaps:
+        x += g
+        pal.append(x)
+    pos += pal
+    x += step * 20
+    for _ in range(rnd.randint(25, 40)):
+        pos.append(x)
+        x += step * rnd.randint(3, 11)
+    query = [p - start for p in pal]
+    return [(1, x + 5000, pos)], [(5, query[-1] + 1, query)]
+
+
 def run_case(case):
     repo, seed, mode, cpu_list = case
+    if mode.startswith('pal:'):
+        mode = mode.split(':')[1]
+        refs, queries = palindrome_set(seed)
+        d = pl.make_workdir(refs, queries)
+        bad = []
+        try:
+            rc0, err0, base = run_cli(repo, d, 1, 0, mode, 'base', hashseed=0)
+            if rc0 != 0:
+                return (seed, 'pal:' + mode), [('cli_run_succeeds', err0)], 1
+            for i, c in enumerate(cpu_list):
+                rc, err, files = run_cli(repo, d, c, 0, mode, f"v{i}", hashseed=i + 1)
+                if rc != 0:
+                    bad.append(('cli_run_succeeds', dict(cpus=c, error=err)))
+                elif files != base:
+                    bad.append(('output_identical_for_every_worker_count_and_repetition',
+                                dict(cpus=c, set='palindrome', hashseed=i + 1, files=[s for s in set(files) | set(base) if files.get(s) != base.get(s)])))
+        finally:
+            pl.cleanup(d)
+        return (seed, 'pal:' + mode), bad, len(cpu_list) + 1
     if mode.startswith('tie:'):
         mode = mode.split(':')[1]
         refs, queries = tie_set(seed)
@@ -237,11 +286,13 @@ def run_case(case):
 def bounded(repo, tier, seed):
     if tier == 'quick':
         cases = [(repo, seed * 4001 + i, m, [2, 3, 8, 16]) for i, m in enumerate(['best', 'all', 'best'])] + [(repo, seed * 4001 + 77, 'many:all', [2]),
-                                                                                                                    (repo, seed * 4001 + 78, 'tie:best', [2, 3, 16])]
+                                                                                                                    (repo, seed * 4001 + 78, 'tie:best', [2, 3, 16]),
+                                                                                                                    (repo, seed * 4001 + 79, 'pal:best', [1, 1, 2, 1, 3, 1, 16])]
     else:
         cases = [(repo, seed * 4001 + i, m, [2, 3, 4, 8, 12, 16]) for i, m in enumerate(['best', 'all', 'joined', 'separate'] * 5)] + \
                 [(repo, seed * 4001 + 77 + i, 'many:' + m, [c]) for i, (m, c) in enumerate([('all', 2), ('separate', 3), ('joined', 4), ('best', 2)])] + \
-                [(repo, seed * 4001 + 178 + i, 'tie:' + m, [2, 3, 4, 16]) for i, m in enumerate(['best', 'all', 'joined', 'best', 'all'])]
+                [(repo, seed * 4001 + 178 + i, 'tie:' + m, [2, 3, 4, 16]) for i, m in enumerate(['best', 'all', 'joined', 'best', 'all'])] + \
+                [(repo, seed * 4001 + 278 + i, 'pal:' + m, [1, 1, 2, 1, 3, 1, 16, 1]) for i, m in enumerate(['best', 'separate', 'all'])]
     from concurrent.futures import ThreadPoolExecutor
     with ThreadPoolExecutor(max_workers=4) as ex:
         res = list(ex.map(run_case, cases))
@@ -254,7 +305,7 @@ def bounded(repo, tier, seed):
             viol.setdefault(key, dict(key=key, blame='src/workflow_coordinator.py::_WorkflowCoordinator.execute', input=dict(seed=case[0], mode=case[1]),
                                       observed=detail, required='C09 statement'))
     return result(tot, tot, "real CLI runs (separate processes, real p_tqdm worker pools) on generated sets incl. two queries with two identical flanks (equal-confidence "
-                            "second-pass candidates, once with fragments of different label counts): --cpus 1 (baseline and repetition), 2, 3, 8, 16, one set of 300 short queries with 1 and 2 workers, one set with a dispersed duplication (two second-pass fragments of different size whose alignments tie exactly), plus runs whose per-query workers sleep a seeded random "
+                            "second-pass candidates, once with fragments of different label counts): --cpus 1 (baseline and repetition), 2, 3, 8, 16, one set of 300 short queries with 1 and 2 workers, one set with a dispersed duplication (two second-pass fragments of different size whose alignments tie exactly), one set with a mirror-symmetric molecule (forward and reverse candidates tie exactly) run in interpreters with eight different string hash seeds, plus runs whose per-query workers sleep a seeded random "
                             "0-30 ms (perturbed completion order); all XMAP files compared byte-wise except the '# coma' / '# hostname' header lines; "
                             "evaluations = CLI runs", [dict(seed=cases[0][1], mode=cases[0][2])], list(viol.values())[:5], exhaustive=False,
                   bounds=f"{len(cases)} sets x {len(cases[0][3]) + 4} runs")
@@ -262,5 +313,5 @@ def bounded(repo, tier, seed):
 
 def replay(repo, rp):
     mode = rp['input']['mode']
-    case, bad, _ = run_case((repo, rp['input']['seed'], mode, [2] if mode.startswith('many:') else ([2, 3, 16] if mode.startswith('tie:') else [2, 3, 8, 16])))
+    case, bad, _ = run_case((repo, rp['input']['seed'], mode, [2] if mode.startswith('many:') else ([2, 3, 16] if mode.startswith('tie:') else ([1, 1, 2, 1, 3, 1, 16] if mode.startswith('pal:') else [2, 3, 8, 16]))))
     return (not bad), bad[:3]
